@@ -23,6 +23,12 @@ def units():
           B.Unit("divn", [("a", "fx"), ("n", "i64")], "i64", "return (a / n).v;"),
           B.Unit("muln32", [("a", "fx"), ("n", "i32")], "i64", "return (a * n).v;"),
           B.Unit("divn32", [("a", "fx"), ("n", "i32")], "i64", "return (a / n).v;"),
+          B.Unit("mulnu8", [("a", "fx"), ("n", "u8")], "i64", "return (a * n).v;"),
+          B.Unit("divnu8", [("a", "fx"), ("n", "u8")], "i64", "return (a / n).v;"),
+          B.Unit("mulnu32", [("a", "fx"), ("n", "u32")], "i64", "return (a * n).v;"),
+          B.Unit("divnu32", [("a", "fx"), ("n", "u32")], "i64", "return (a / n).v;"),
+          B.Unit("mulnu64", [("a", "fx"), ("n", "u64")], "i64", "return (a * n).v;"),
+          B.Unit("divnu64", [("a", "fx"), ("n", "u64")], "i64", "return (a / n).v;"),
           B.Unit("lt", fx2, "bool", "return a < b;"), B.Unit("le", fx2, "bool", "return a <= b;")]
     return us
 
@@ -140,15 +146,20 @@ def run(R):
                 "a*(n%+d) == a*n %s a when none of them is NaN (with base cases: a*n equals a added n times)" % (
                     sgn, "+" if sgn == 1 else "-"), lemmas=lem)
     # (a*n)/n == a
-    for mu, du, w in (("muln", "divn", 64), ("muln32", "divn32", 32)):
+    for mu, du, w, sg in (("muln", "divn", 64, True), ("muln32", "divn32", 32, True), ("mulnu8", "divnu8", 8, False),
+                          ("mulnu32", "divnu32", 32, False), ("mulnu64", "divnu64", 64, False)):
         nv = BV("n", w)
-        def build_mn(ab, mu=mu, du=du, w=w, nv=nv):
+        def build_mn(ab, mu=mu, du=du, w=w, nv=nv, sg=sg):
             o2 = E.Opts(div_spec=True, mul_uf=ab, wide_mul=not ab)
             m = C(mu, [a, nv], o2)
             d = R.call(h, du, [m.out, nv], opts=o2)
             d.encode()
             q = d.res.fresh[0]
-            lem = [distrib(X128(a), X128(q), X128(nv))] if ab else []
+            N128 = X128(nv) if sg else z3.simplify(zx(nv, 128))
+            lem = [distrib(X128(a), X128(q), N128)] if ab else []
+            if ab and not sg:
+                from .C02 import sign_lemma
+                lem.append(sign_lemma(a, N128))      # unsigned operands are multiplied as |a| * n with the sign restored
             return Ob("%s-%s/cancels" % (mu, du), "verify", [a, nv], [m, d],
                       z3.And(finite(a), nv != 0, nn(m.out), nn(d.out)), d.out == a, portfolio=PF, abstract=ab,
                       extra_asserts=lem, note="(a*n)/n == a for n != 0 when no intermediate NaN", timeout=120)
